@@ -11,6 +11,7 @@ payload, the little-endian number / text found there.
 -/
 namespace C07
 open Ubx Spec
+variable [KeyTable]
 
 /-- one obligation per fixed-layout class: layout equals the specification, total size as prescribed -/
 abbrev Agrees (t : Table) (spec : Layout) (size : Nat) : Prop := t.layout 0 = spec ∧ t.size = size
@@ -50,6 +51,7 @@ end C07
 
 namespace C07
 open Ubx Spec
+variable [KeyTable]
 
 /-! ### messages with repeated blocks — every block count -/
 
@@ -90,6 +92,7 @@ end C07
 /-! ### configuration key/value pairs (UBX-CFG-VALGET) -/
 namespace C07
 open Ubx Spec
+variable [KeyTable]
 
 /-- an item as it can appear on the wire: a valid width, a 1-bit value that is 0 or 1, and the
     signedness the key table gives its key id -/
